@@ -453,8 +453,8 @@ func (ck *Check) classification(rule string, want map[int]string) {
 					continue
 				}
 				cordoned := Atom(ck.nodeField(n, "Spec", "Unschedulable"))
-				tainted := Atom(&Term{Kind: "extract", Name: "1", Args: []*Term{{Kind: "call", Name: funcID(a.GetTaint), Fn: a.GetTaint, Obj: a.GetTaint.Object(), Args: []*Term{n}}}})
-				forced := Atom(&Term{Kind: "extract", Name: "1", Args: []*Term{{Kind: "call", Name: funcID(a.GetForceTaint), Fn: a.GetForceTaint, Obj: a.GetForceTaint.Object(), Args: []*Term{n}}}})
+				tainted := boolResultFormula(ctx, a.GetTaint, []*Term{n}, 1)
+				forced := boolResultFormula(ctx, a.GetForceTaint, []*Term{n}, 1)
 				var req *Formula
 				var text string
 				switch role {
@@ -656,6 +656,14 @@ func (ck *Check) emptinessShape(rule string) {
 						eq, _, _ := Equivalent(ctx.PC(c), bodyPC)
 						recv := ctx.Term(c.Common().Args[0])
 						keyOK := recv.Kind == "lookup" && recv.Args[1].Key() == ck.podField(argT, "Spec", "NodeName").Key()
+						// … or the entry is fetched through a get-or-create helper h(map, key)
+						if rc, ok := c.Common().Args[0].(*ssa.Call); ok && !keyOK {
+							if h := rc.Common().StaticCallee(); h != nil && ck.P.inRepo(h) {
+								if mi, ki, ok := getOrCreateHelper(h); ok && ki < len(rc.Common().Args) && mi < len(rc.Common().Args) {
+									keyOK = ctx.Term(rc.Common().Args[ki]).Key() == ck.podField(argT, "Spec", "NodeName").Key()
+								}
+							}
+						}
 						if isElemOf(argT, func(t *Term) bool { return t.Kind == "param" }) && eq && keyOK {
 							found = true
 						} else {
@@ -826,7 +834,7 @@ func checkC10(ck *Check) {
 			continue
 		}
 		n++
-		prot := Atom(&Term{Kind: "extract", Name: "1", Args: []*Term{{Kind: "call", Name: funcID(a.SafeFromDeletion), Fn: a.SafeFromDeletion, Obj: a.SafeFromDeletion.Object(), Args: []*Term{ra.Elem}}}})
+		prot := boolResultFormula(ra.Ctx, a.SafeFromDeletion, []*Term{ra.Elem}, 1)
 		ck.entails("C10.R1", ra.Key, ra.Site.Call, ra.Ctx.PC(ra.Site.Call), Not(prot), "PC ⇒ ¬protected(n) for the appended node n")
 	}
 	ck.floor("C10.R1", "grace reaper append sites", n, 1)
@@ -893,6 +901,26 @@ func (ck *Check) protectedPredicate(rule string) {
 	fn := ck.A.SafeFromDeletion
 	ctx := ck.P.NewCtx(fn)
 	n := paramTerm(fn.Params[0])
+	// lookup form: protected(n) ⇔ n.Annotations["atlassian.com/no-delete"] ≠ "" (a missing key reads
+	// as the empty string, so this is the same predicate as the search loop)
+	if !infoOf(fn).hasLoop {
+		got := ctx.returnFormula(1)
+		var empty *Formula
+		for _, at := range got.Atoms() {
+			if at.Kind == "cmp" && at.Name == "==" && hasConstStr(at, `""`) {
+				for _, x := range at.Args {
+					if x.Kind == "lookup" && len(x.Args) == 2 && x.Args[0].Key() == ck.nodeField(n, "ObjectMeta", "Annotations").Key() && x.Args[1].Kind == "const" && x.Args[1].Name == `"atlassian.com/no-delete"` {
+						empty = Atom(at)
+					}
+				}
+			}
+		}
+		if empty != nil {
+			okv, why, _ := Equivalent(got, Not(empty))
+			ck.cond(okv, rule, "safeFromDeletion/body", ck.P.position(fn.Pos()), funcID(fn), "protected(n) ⇔ n.Annotations[\"atlassian.com/no-delete\"] ≠ \"\"", got.String(), why)
+			return
+		}
+	}
 	okv := true
 	var why []string
 	trueRets := 0
@@ -1179,6 +1207,12 @@ func (ck *Check) collectSource(fn *ssa.Function, ctx *Ctx, slice, idx ssa.Value,
 	if len(fieldIdx) == 0 {
 		return ctx.Term(slice), ""
 	}
+	return ck.collectFrom(fn, ctx, slice, fieldIdx, 0)
+}
+
+// collectFrom: slice is the result of a collect loop `for i, x := range L { acc = append(acc,
+// T{…x…}) }` (in fn, or in a repo helper that fn calls to build it); returns L.
+func (ck *Check) collectFrom(fn *ssa.Function, ctx *Ctx, slice ssa.Value, fieldIdx []int, depth int) (*Term, string) {
 	// slice must be a collect over some list: header phi? no: it is used after the collect loop, so
 	// it is the loop's accumulator phi (or a sort-in-place of it)
 	pr := sliceProv(slice)
@@ -1214,9 +1248,39 @@ func (ck *Check) collectSource(fn *ssa.Function, ctx *Ctx, slice, idx ssa.Value,
 		src = et.Args[0]
 	}
 	for _, r := range pr.Roots {
-		if !makeSliceEmpty(r) {
-			return nil, "sorted slice has a non-empty origin: " + r.String()
+		if makeSliceEmpty(r) {
+			continue
 		}
+		// built by a helper: the helper's returned slice must itself be such a collect
+		if call, ok := r.(*ssa.Call); ok && depth < 2 {
+			if h := call.Common().StaticCallee(); h != nil && ck.P.inRepo(h) && h.Blocks != nil && h.Signature.Results().Len() == 1 {
+				args := make([]*Term, len(call.Common().Args))
+				for i, av := range call.Common().Args {
+					args[i] = ctx.Term(av)
+				}
+				ch := ctx.child(h, call, args)
+				ch.depth = 0
+				found := false
+				for _, b := range h.Blocks {
+					ret, ok := b.Instrs[len(b.Instrs)-1].(*ssa.Return)
+					if !ok {
+						continue
+					}
+					sub, why := ck.collectFrom(h, ch, ret.Results[0], fieldIdx, depth+1)
+					if sub == nil {
+						return nil, "in " + funcID(h) + ": " + why
+					}
+					if src != nil && src.Key() != sub.Key() {
+						return nil, "collect from several lists"
+					}
+					src, found = sub, true
+				}
+				if found {
+					continue
+				}
+			}
+		}
+		return nil, "sorted slice has a non-empty origin: " + r.String()
 	}
 	if src == nil {
 		return nil, "no collect loop found"
@@ -1250,7 +1314,6 @@ func (ck *Check) actionTargets(rule string) {
 // countingArgs (C09.R3, C05.R4, C13.R5): capacity list, percent node count, delta node list = U.
 func (ck *Check) countingArgs(rule string) {
 	a := ck.A
-	ctx := ck.P.NewCtx(a.Scan)
 	capFn := ck.P.SSAPkg[pkgK8s].Func("CalculateNodesCapacity")
 	type want struct {
 		fn   *ssa.Function
@@ -1264,13 +1327,15 @@ func (ck *Check) countingArgs(rule string) {
 			ck.lost(rule, w.name, "function not found")
 			continue
 		}
-		cs := callsTo(a.Scan, w.fn)
+		wfn := w.fn
+		cs := ck.bodyCalls(a.Scan, func(ci ssa.CallInstruction) bool { return ci.Common().StaticCallee() == wfn })
 		if len(cs) == 0 {
 			ck.fail(rule, "scan/"+w.name, "", funcID(a.Scan), "the scan body calls "+funcID(w.fn), "no call", "")
 			continue
 		}
-		for _, ci := range cs {
-			t := ctx.Term(ci.Common().Args[w.arg])
+		for _, bc := range cs {
+			ci := bc.Call
+			t := bc.Ctx.Term(ci.Common().Args[w.arg])
 			if w.lenf {
 				if t.Kind == "len" {
 					t = t.Args[0]
@@ -1283,4 +1348,88 @@ func (ck *Check) countingArgs(rule string) {
 			ck.cond(o == "U", rule, ck.P.siteKey(ci)+"/"+w.name, ck.P.instrPos(ci), funcID(a.Scan), w.name+" is the classifier's untainted list", t.String()+" (origin "+o+")", "capacity / counts include nodes outside the untainted uncordoned list")
 		}
 	}
+}
+
+// boolResultFormula: the formula a context produces for boolean result idx of a call of fn with
+// the given argument terms: the inlined return formula when fn is inlinable there, else the atom
+// of the call (or of its idx-th component).
+func boolResultFormula(ctx *Ctx, fn *ssa.Function, args []*Term, idx int) *Formula {
+	call := &Term{Kind: "call", Name: funcID(fn), Fn: fn, Obj: fn.Object(), Args: args}
+	if ctx.inlinable(fn) {
+		return ctx.childTerm(call).returnFormula(idx)
+	}
+	if fn.Signature.Results().Len() == 1 {
+		return Atom(call)
+	}
+	return Atom(&Term{Kind: "extract", Name: fmt.Sprint(idx), Args: []*Term{call}})
+}
+
+// getOrCreateHelper: h(…, m map[K]V, …, k K, …) V returns, on every path, the entry of m under k:
+// the value of a comma-ok lookup m[k], or a value it has just stored under m[k]. Returns the
+// parameter indices of the map and the key.
+func getOrCreateHelper(h *ssa.Function) (int, int, bool) {
+	if h.Blocks == nil || h.Signature.Results().Len() != 1 || infoOf(h).hasLoop {
+		return 0, 0, false
+	}
+	paramIdx := func(v ssa.Value) int {
+		for i, p := range h.Params {
+			if ssa.Value(p) == v {
+				return i
+			}
+		}
+		return -1
+	}
+	mi, ki := -1, -1
+	entry := func(v ssa.Value) bool {
+		// comma-ok lookup result
+		if ex, ok := v.(*ssa.Extract); ok && ex.Index == 0 {
+			if lk, ok := ex.Tuple.(*ssa.Lookup); ok {
+				m, k := paramIdx(lk.X), paramIdx(lk.Index)
+				if m >= 0 && k >= 0 && (mi < 0 || (mi == m && ki == k)) {
+					mi, ki = m, k
+					return true
+				}
+			}
+			return false
+		}
+		if lk, ok := v.(*ssa.Lookup); ok && !lk.CommaOk {
+			m, k := paramIdx(lk.X), paramIdx(lk.Index)
+			if m >= 0 && k >= 0 && (mi < 0 || (mi == m && ki == k)) {
+				mi, ki = m, k
+				return true
+			}
+			return false
+		}
+		// a value stored under m[k] in this function
+		for _, b := range h.Blocks {
+			for _, in := range b.Instrs {
+				if mu, ok := in.(*ssa.MapUpdate); ok && mu.Value == v {
+					m, k := paramIdx(mu.Map), paramIdx(mu.Key)
+					if m >= 0 && k >= 0 && (mi < 0 || (mi == m && ki == k)) {
+						mi, ki = m, k
+						return true
+					}
+				}
+			}
+		}
+		return false
+	}
+	n := 0
+	for _, b := range h.Blocks {
+		r, ok := b.Instrs[len(b.Instrs)-1].(*ssa.Return)
+		if !ok {
+			continue
+		}
+		n++
+		vals := []ssa.Value{r.Results[0]}
+		if ph, ok := r.Results[0].(*ssa.Phi); ok {
+			vals = ph.Edges
+		}
+		for _, v := range vals {
+			if !entry(v) {
+				return 0, 0, false
+			}
+		}
+	}
+	return mi, ki, n > 0 && mi >= 0
 }
